@@ -210,6 +210,7 @@ pub fn cover<P: PType>(st: &MapSt<P>, cx: &Cx) -> (Vec<Viol>, u64) {
     let mut out = vec![];
     let mut n = 0u64;
     let map = &st.map;
+    let mut mc = st.map.clone();
     for &q in &cx.uni.queries {
         let want = st.model.cover(q);
         let lim = cap(want.len());
@@ -230,7 +231,11 @@ pub fn cover<P: PType>(st: &MapSt<P>, cx: &Cx) -> (Vec<Viol>, u64) {
             cmp_entry(&mut out, "C09", "PrefixMap::get_spm_prefix", qk, sp, want.first().map(|o| (o.0, o.1, 0)));
             let l = map.get_lpm(&p).map(|(p, v)| obs(p, v));
             cmp_entry(&mut out, "C09", "PrefixMap::get_lpm (last of cover)", qk, l, want.last().copied());
-            n += 6;
+            let lp = map.get_lpm_prefix(&p).map(|p| obs(p, &0));
+            cmp_entry(&mut out, "C09", "PrefixMap::get_lpm_prefix (last of cover)", qk, lp, want.last().map(|o| (o.0, o.1, 0)));
+            let lm = mc.get_lpm_mut(&p).map(|(p, v)| obs(p, v));
+            cmp_entry(&mut out, "C09", "PrefixMap::get_lpm_mut (last of cover)", qk, lm, want.last().copied());
+            n += 8;
         }
     }
     (out, n)
